@@ -169,6 +169,7 @@ V_Ret(err) ==
   \cup If(~IsFail(exp) /\ ~IsFail(err) /\ exp.class # err.class, "skip_misjudged")
   \cup If(IsFail(exp) /\ IsFail(err) /\ exp.class # err.class, "failure_class")
   \cup If(IsFail(exp) /\ IsFail(err) /\ exp.msg # "" /\ exp.msg # err.msg, "failure_message")
+  \cup If(cur.kind \in {"ff1", "ff2"} /\ ~IsFail(exp) /\ IsFail(err), "ff_phantom_failure")   \* a fail file that does not falsify the property must not fail the test
 
 E_Ret(err) ==
   LET k == cur.kind
@@ -369,5 +370,5 @@ VerdictOf ==
     C11 |-> {"phantom_failure", "lost_failure", "reported_failure_never_happened", "flaky_report", "skip_misjudged",
              "label_carried_over", "failure_message", "dead_context_in_body"},
     C17 |-> {"ff_ignored_silently", "ff_changed_verdict", "ff_changed_cases", "ff_after_failure", "ff_order", "unusable_file_used",
-             "check_crashed"} ]
+             "check_crashed", "ff_phantom_failure"} ]
 =============================================================================
